@@ -21,7 +21,7 @@ I64_MIN, I64_MAX = -2 ** 63, 2 ** 63 - 1
 
 HEADER = """import datetime, decimal, enum, ipaddress, uuid
 from dataclasses import dataclass, field
-from typing import (Annotated, Any, Dict, FrozenSet, List, Literal, Mapping, NamedTuple, Optional, Self, Sequence, Set,
+from typing import (Annotated, Any, Dict, Final, FrozenSet, List, Literal, Mapping, NamedTuple, Optional, Self, Sequence, Set,
                     Tuple, TypedDict, Union)
 from mashumaro import DataClassDictMixin
 from mashumaro.config import ADD_DIALECT_SUPPORT, BaseConfig
@@ -122,6 +122,13 @@ def ann(t: T) -> str:
     if k == "mapping":
         return f"Mapping[{ann(t.args[0])}, {ann(t.args[1])}]"
     if k == "opt":
+        sp = t.args[1] if len(t.args) > 1 else None      # the spelling of the same type
+        if sp == "annotated":
+            return f'Annotated[Optional[{ann(t.args[0])}], "meta"]'
+        if sp == "final":
+            return f"Final[Optional[{ann(t.args[0])}]]"
+        if sp == "union":
+            return f"Union[{ann(t.args[0])}, None]"
         return f"Optional[{ann(t.args[0])}]"
     if k == "union":
         return "Union[" + ", ".join(ann(x) for x in t.args[0]) + "]"
@@ -176,6 +183,20 @@ def kinds_deep(t: T, S, acc=None, seen=None) -> set:
 # ---------------------------------------------------------------------------
 # schema (module) generator
 # ---------------------------------------------------------------------------
+
+def respell(t: T, r, allow_final=False) -> T:
+    """the same Optional type under another annotation spelling"""
+    if t.kind != "opt" or len(t.args) > 1:
+        return t
+    x = r.random()
+    if x < 0.16:
+        return T("opt", t.args[0], "annotated")
+    if x < 0.22:
+        return T("opt", t.args[0], "union")
+    if allow_final and x < 0.36:
+        return T("opt", t.args[0], "final")
+    return t
+
 
 class Schema:
     """A generated module: enums, named tuples, typed dicts, dataclasses (source text) + descriptors."""
@@ -247,16 +268,16 @@ class Schema:
         fields = []
         nf = r.randint(2, 6) if root else r.randint(1, 4)
         for i in range(nf):
-            t = self.gen_type(depth - 1)
+            t = respell(self.gen_type(depth - 1), r, allow_final=True)
             fields.append([f"{prefix}{name.lower()}_{i}", t, None])
         if force_native:
             fields.append([f"{prefix}{name.lower()}_nat", T(r.choice(NATIVE_LEAVES)), None])
         if tag is not None:
             fields.append([tag[0], T("lit", [tag[1]]), repr(tag[1])])
-        if not self.small and base is None and discr_field is None and (force_self or r.random() < 0.10):
+        if base is None and discr_field is None and (force_self or r.random() < (0.15 if self.small else 0.10)):
             # a field referring to the class itself: by name (forward reference, always the declaring class) or
             # by typing.Self (the class of the instance: a subclass nests instances of the subclass)
-            use_self = force_self or r.random() < 0.5
+            use_self = (force_self is True) or (force_self != "name" and r.random() < 0.5)
             if r.random() < 0.6:
                 fields.append([f"{prefix}{name.lower()}_self", T("selfopt", use_self, name=name), "None"])
             else:
@@ -346,17 +367,25 @@ class Schema:
 
     def gen_type(self, depth, allow_classes=True) -> T:
         r = self.rng
-        if self.small:
-            if depth <= 0 or r.random() < 0.45:
-                return T(r.choice(SMALL_LEAVES))
-            c = r.choice(["list", "dict", "opt", "opt", "dc", "dc"])
+        if self.small:          # the grammar of the Coq model (Fmt.v)
+            if depth <= 0 or r.random() < 0.42:
+                return T("any") if r.random() < 0.12 else T(r.choice(SMALL_LEAVES))
+            c = r.choice(["list", "dict", "opt", "opt", "dc", "dc", "child", "dunion"])
             if c == "list":
                 return T("list", self.gen_type(depth - 1))
             if c == "dict":
                 return T("dict", T("str"), self.gen_type(depth - 1))
             if c == "opt":
                 inner = self.gen_type(depth - 1)
-                return inner if inner.kind == "opt" else T("opt", inner)
+                return inner if inner.kind == "opt" else respell(T("opt", inner), r)
+            if c == "child":
+                b = self.new_dc(depth - 1, force_self=r.random() < 0.4)
+                return self.new_dc(depth - 1, base=b.name)
+            if c == "dunion":
+                fld = r.choice(["kind", "type", "t"])
+                vs = [self.new_dc(depth - 1, prefix=f"dv{i}", tag=(fld, lit), force_native=r.random() < 0.8)
+                      for i, lit in enumerate(r.choice([["a", "b"], ["x", "y", "z"]]))]
+                return T("dunion", vs, fld)
             return self.new_dc(depth - 1)
         if depth <= 0 or r.random() < 0.42:
             return self.gen_leaf()
@@ -377,7 +406,7 @@ class Schema:
                 inner = inner.args[0] if inner.kind == "opt" else T("int")
             if inner.kind == "union":
                 return inner if any(m.kind == "none" for m in inner.args[0]) else T("opt", T("int"))
-            return T("opt", inner)
+            return respell(T("opt", inner), r)
         if c == "tuplefix":
             return T(c, [self.gen_type(depth - 1, allow_classes) for _ in range(r.randint(1, 3))])
         if c == "union":
@@ -661,7 +690,7 @@ def _whole_minute(tz_holder) -> bool:
     return off is None or (off.microseconds == 0 and off.seconds % 60 == 0)
 
 
-def outside_subset(F: str, v, top=True, ctx="top"):
+def outside_subset(F: str, v, top=True, ctx="top", skip_datetime_offsets=False):
     """None if v lies inside F's representable subset, else the reason (a short tag).
 
     From the property's quantifier:
@@ -684,7 +713,7 @@ def outside_subset(F: str, v, top=True, ctx="top"):
     if isinstance(v, bool):
         return None
     if isinstance(v, enum.Enum):
-        return outside_subset(F, v.value, False, ctx)
+        return outside_subset(F, v.value, False, ctx, skip_datetime_offsets)
     if isinstance(v, int):
         if F in ("orjson", "msgpack") and not (I64_MIN <= v <= I64_MAX):
             return "int-beyond-64-bit"
@@ -694,7 +723,7 @@ def outside_subset(F: str, v, top=True, ctx="top"):
             return "orjson-non-finite-float"
         return None
     if isinstance(v, dt.datetime):
-        if F in ("orjson", "toml") and not _whole_minute(v):
+        if F in ("orjson", "toml") and not _whole_minute(v) and not skip_datetime_offsets:
             return "sub-minute-utc-offset"
         return None
     if isinstance(v, dt.time):
@@ -703,7 +732,7 @@ def outside_subset(F: str, v, top=True, ctx="top"):
         return None
     if dataclasses.is_dataclass(v):
         for f in dataclasses.fields(v):
-            why = outside_subset(F, getattr(v, f.name), False, "field")
+            why = outside_subset(F, getattr(v, f.name), False, "field", skip_datetime_offsets)
             if why:
                 return why
         return None
@@ -712,13 +741,13 @@ def outside_subset(F: str, v, top=True, ctx="top"):
             if F in ("orjson", "msgpack", "toml"):
                 if not (type(k) is str or (isinstance(k, enum.Enum) and type(k.value) is str)):
                     return "non-string-map-key"
-            why = outside_subset(F, x, False, "elem")
+            why = outside_subset(F, x, False, "elem", skip_datetime_offsets)
             if why:
                 return why
         return None
     if isinstance(v, (list, tuple, set, frozenset)):
         for x in v:
-            why = outside_subset(F, x, False, "elem")
+            why = outside_subset(F, x, False, "elem", skip_datetime_offsets)
             if why:
                 return why
         return None
@@ -973,6 +1002,11 @@ def coq_ty(t: T, S: Schema) -> str:
         return {"int": "TInt", "float": "TFloat", "bool": "TBool", "str": "TStr"}[k]
     if k in LKIND:
         return f"(TLeaf {LKIND[k]})"
+    if k == "any":
+        return "TAny"
+    if k == "lit":
+        assert len(t.args[0]) == 1 and isinstance(t.args[0][0], str)
+        return f"(TLit {_cs(t.args[0][0])})"
     if k == "list":
         return f"(TList {coq_ty(t.args[0], S)})"
     if k == "dict":
@@ -981,10 +1015,28 @@ def coq_ty(t: T, S: Schema) -> str:
     if k == "opt":
         return f"(TOpt {coq_ty(t.args[0], S)})"
     if k == "dc":
-        fs = S.classes[t.name]["fields"]
-        return "(TRec %s [%s])" % (_cs(t.name), "; ".join(
-            "(%s, (%s, %s))" % (_cs(f), coq_ty(ft, S), "true" if d == "None" else "false") for f, ft, d in fs))
+        return f"(TData {_cs(t.name)})"
+    if k in ("selfopt", "selflist"):
+        inner = "TSelf" if (t.args and t.args[0]) else f"(TData {_cs(t.name)})"
+        return f"(TOpt {inner})" if k == "selfopt" else f"(TList {inner})"
+    if k == "dunion":
+        tags = []
+        for v in t.args[0]:
+            lit = [ft for f, ft, _ in S.classes[v.name]["fields"] if f == t.args[1]][0].args[0][0]
+            tags.append(f"({_cs(lit)}, {_cs(v.name)})")
+        return f"(TDiscr {_cs(t.args[1])} [{'; '.join(tags)}])"
     raise ValueError(k)
+
+
+def coq_env(S: Schema) -> str:
+    """class table: every generated dataclass with its (inherited, flattened) field declarations"""
+    out = []
+    for name, c in S.classes.items():
+        if c["kind"] != "dc":
+            continue
+        out.append("(%s, [%s])" % (_cs(name), "; ".join(
+            "(%s, (%s, %s))" % (_cs(f), coq_ty(ft, S), "true" if d == "None" else "false") for f, ft, d in c["fields"])))
+    return "[" + "; ".join(out) + "]"
 
 
 def leaf_payload(v) -> tuple[str, str, str]:
@@ -1006,21 +1058,33 @@ def leaf_payload(v) -> tuple[str, str, str]:
     raise TypeError(type(v))
 
 
-def coq_pv(v, t: T, S: Schema, tab: list, unrepr: dict) -> str:
-    k = t.kind
-    if k == "opt":
-        return "VNone" if v is None else coq_pv(v, t.args[0], S, tab, unrepr)
-    if k == "int":
-        return f"(VInt ({v}))"
-    if k == "float":
-        return f"(VFloat {coq_float(v)})"
-    if k == "bool":
+# user dialects of the model cases: name -> (kind, callable id, independent rendering)
+MODEL_USER_DIALECTS = {
+    "XD_empty": [],
+    "XD_bytes": [("KBytes", 2, lambda v: v.hex())],
+    "XD_bytearray": [("KBytearray", 3, lambda v: bytes(v).hex())],
+    "XD_datetime": [("KDatetime", 4, lambda v: v.isoformat())],
+}
+
+
+def coq_pv(v, S: Schema, tab: list, unrepr: dict, utab: list, user: list) -> str:
+    """value-directed encoding (the model's values carry their own classes)"""
+    if v is None:
+        return "VNone"
+    if isinstance(v, bool):
         return "(VBool %s)" % ("true" if v else "false")
-    if k == "str":
+    if isinstance(v, int):
+        return f"(VInt ({v}))"
+    if isinstance(v, float):
+        return f"(VFloat {coq_float(v)})"
+    if isinstance(v, str):
         return f"(VStr {_cs(v)})"
-    if k in LKIND:
+    if isinstance(v, (bytes, bytearray, dt.datetime, dt.date, dt.time, uuid.UUID, decimal.Decimal)):
         kind, p, text = leaf_payload(v)
         tab.append((kind, p, text))
+        for uk, uid, fn in user:
+            if uk == kind:
+                utab.append((uid - 2, kind, p, fn(v)))
         if isinstance(v, dt.time) and v.tzinfo is not None:
             for F in ("orjson", "toml"):
                 unrepr.setdefault(F, []).append((kind, p))
@@ -1028,14 +1092,49 @@ def coq_pv(v, t: T, S: Schema, tab: list, unrepr: dict) -> str:
             for F in ("orjson", "toml"):
                 unrepr.setdefault(F, []).append((kind, p))
         return f"(VLeaf {kind} {_cs(p)})"
-    if k == "list":
-        return "(VList [%s])" % "; ".join(coq_pv(x, t.args[0], S, tab, unrepr) for x in v)
-    if k == "dict":
-        return "(VDict [%s])" % "; ".join(f"({_cs(a)}, {coq_pv(x, t.args[1], S, tab, unrepr)})" for a, x in v.items())
-    if k == "dc":
-        return "(VObj %s [%s])" % (_cs(t.name), "; ".join(
-            f"({_cs(f)}, {coq_pv(getattr(v, f), ft, S, tab, unrepr)})" for f, ft, _ in S.classes[t.name]["fields"]))
-    raise ValueError(k)
+    if isinstance(v, list):
+        return "(VList [%s])" % "; ".join(coq_pv(x, S, tab, unrepr, utab, user) for x in v)
+    if isinstance(v, dict):
+        return "(VDict [%s])" % "; ".join(f"({_cs(a)}, {coq_pv(x, S, tab, unrepr, utab, user)})" for a, x in v.items())
+    if dataclasses.is_dataclass(v):
+        name = type(v).__name__
+        return "(VObj %s [%s])" % (_cs(name), "; ".join(
+            f"({_cs(f)}, {coq_pv(getattr(v, f), S, tab, unrepr, utab, user)})" for f, _, _ in S.classes[name]["fields"]))
+    raise TypeError(type(v))
+
+
+TYPE_KIND = {bytes: "KBytes", bytearray: "KBytearray", dt.datetime: "KDatetime", dt.date: "KDate", dt.time: "KTime",
+             uuid.UUID: "KUuid"}
+
+
+def coq_format_dialect(F: str):
+    """(entries, omit_none) of the format's own dialect class as declared in /repo, as Coq terms"""
+    import importlib
+    from mashumaro.helper import pass_through
+    name = {"orjson": ("mashumaro.mixins.orjson", "OrjsonDialect"), "msgpack": ("mashumaro.mixins.msgpack", "MessagePackDialect"),
+            "toml": ("mashumaro.mixins.toml", "TOMLDialect")}.get(F)
+    if name is None:
+        return "[]", "false"
+    D = getattr(importlib.import_module(name[0]), name[1])
+
+    def cid(f):
+        if f is pass_through:
+            return 0
+        if f is bytearray:
+            return 1
+        return 99
+
+    ents = []
+    for typ, val in D.serialization_strategy.items():
+        kind = TYPE_KIND.get(typ, "KText")
+        if isinstance(val, dict):
+            so = f"(Some {cid(val['serialize'])}%nat)" if "serialize" in val else "None"
+            do = f"(Some {cid(val['deserialize'])}%nat)" if "deserialize" in val else "None"
+            ents.append(f"({kind}, EDict {so} {do})")
+        else:
+            ents.append(f"({kind}, EObj {cid(val)}%nat)")
+    omit = getattr(D, "omit_none", None) is True
+    return "[" + "; ".join(ents) + "]", "true" if omit else "false"
 
 
 def coq_bv(b) -> str:
